@@ -288,7 +288,12 @@ func VP_C11_fat_file_attrs() {
 	fs, img, ro := c11FatFS(c11BackendFile)
 	vp.Unwind(40)
 	vp.NoPanic()
-	f, err := fs.OpenFile("/FOO.TXT", os.O_RDWR)
+	// on a read-only image a handle can only be obtained without write flags
+	flag := os.O_RDWR
+	if ro {
+		flag = os.O_RDONLY
+	}
+	f, err := fs.OpenFile("/FOO.TXT", flag)
 	vp.Assert(err == nil, "the existing file opens")
 	fl := f.(*File)
 	on := vp.Bool("on")
